@@ -39,7 +39,7 @@ TNext == /\ verdict = "run"
                  /\ (phase' = "items" => Len(rels') = Len(P.rels))
                  /\ (phase' = "done" => Len(items') = Len(P.items) /\ Len(branch2') = Len(P.branch2))
                  /\ Len(branch2') <= Len(P.branch2)
-                 /\ \A i \in DOMAIN branch2' : branch2'[i].s = P.branch2[i].s /\ branch2'[i].n = P.branch2[i].n
+                 /\ \A i \in DOMAIN branch2' : branch2'[i].s = P.branch2[i].s /\ branch2'[i].n = P.branch2[i].n /\ branch2'[i].al = P.branch2[i].al /\ branch2'[i].cols = P.branch2[i].cols
             ELSE verdict' = (IF phase = "done" THEN Final ELSE "program_incomplete") /\ UNCHANGED <<vars, l>>
          /\ UNCHANGED tid
 Stuck == verdict = "run" /\ l <= Steps /\ ~ENABLED TNext
